@@ -100,7 +100,8 @@ def random_tree(rng: random.Random, depth=0, ws_text=False):
     if shape == "text":
         kids.append({"x": rtext(rng, TEXT_ATOMS, 0, 5), "stock": rng.random() < 0.2})
     elif shape == "mixed":
-        for _ in range(rng.randint(2, 4)):
+        # mostly narrow, sometimes wide (a serialiser's mixed-content test must not depend on the child count)
+        for _ in range(rng.randint(2, 4) if rng.random() < 0.85 else rng.randint(5, 40)):
             if rng.random() < 0.5:
                 kids.append({"x": rtext(rng, TEXT_ATOMS, 0, 4), "stock": rng.random() < 0.3})
             else:
@@ -108,7 +109,7 @@ def random_tree(rng: random.Random, depth=0, ws_text=False):
         if not any("x" in k for k in kids):
             kids.insert(rng.randint(0, len(kids)), {"x": rtext(rng, TEXT_ATOMS, 1, 3), "stock": False})
     elif shape == "elems":
-        for _ in range(rng.randint(1, 4)):
+        for _ in range(rng.randint(1, 4) if rng.random() < 0.9 else rng.randint(5, 24)):
             kids.append(random_tree(rng, depth + 1))
     return {"t": tag, "a": attrs, "k": kids}
 
